@@ -257,15 +257,17 @@ def r12_3(chk, uc):
            found=str([("" if not e.guards else "under " + str(e.guards[-1][0])[:60] + ": ") + str(e.value)[:80] for e in invs])[:300])
     L = st.get("self.lengths")
     items = seq_items(L) if L is not None else None
-    norm = "numpy.linalg.norm(self.direct, axis=1)"
+    # self.direct holds the given vectors (checked above): norms taken of either are the same row norms
+    same = {("attr", P.name("self"), "direct"): vec} if st.get("self.direct") is not None and st["self.direct"].key() == vec.key() else {}
+    norm = f"numpy.linalg.norm({vec if same else 'self.direct'}, axis=1)"
     chk.ob("R12.3", UC, q, "lengths are the row norms of the matrix, in order a, b, c",
-           items is not None and [x.key() for x in items] == [f"{norm}[{k}]" for k in range(3)], found=str(L))
+           items is not None and [x.subs(same).key() for x in items] == [f"{norm}[{k}]" for k in range(3)], found=str(L))
     units = {k[1]: v for k, v in ev.defs.items()}
     for k, nm in enumerate(("u_a", "u_b", "u_c")):
         v = units.get(nm)
         want = P.atom(("sub", vec, (P.const(k), P.atom(("slice",) + (P.atom(("const", None)),) * 3)))) / P.atom(
             ("sub", P.atom(("call", P.name("numpy.linalg.norm"), (P.atom(("attr", P.name("self"), "direct")),), (("axis", P.const(1)),))), (P.const(k),)))
-        chk.ob("R12.3", UC, q, f"{nm} is row {k} divided by its own length", v is not None and v == want, fingerprint=f"unit:{nm}",
+        chk.ob("R12.3", UC, q, f"{nm} is row {k} divided by its own length", v is not None and v.subs(same) == want.subs(same), fingerprint=f"unit:{nm}",
                expected=str(want), found=str(v))
     A = st.get("self.angles")
     items = seq_items(A) if A is not None else None
